@@ -29,8 +29,8 @@ def _install_unpack():
     hook.STUBS["unpack"] = stub
 
 
-def N(kind, vol=3, pan=5):
-    return ("note", kind, vol, pan)
+def N(kind, vol=3, pan=5, value=1):
+    return ("note", kind, vol, pan, value)
 
 
 FULL = dict(title="T" * 63 + "x", artist="A" * 31 + "y", creator="C" * 31 + "z", ojm_file="o" * 28 + ".ojm")
@@ -134,6 +134,9 @@ def level_sets():
     S["all-columns"] = [(0, 2 + i, [N("hit") if j == i % 4 else None for j in range(4)]) for i in range(7)] + [(0, 1, [None, B("a")])]
     S["48-events"] = [(0, 2, [N("hit") if j in (1, 47) else None for j in range(48)]), (0, 1, [B("a") if j == 24 else None for j in range(48)])]
     S["two-tempo-packages-one-measure"] = [(1, 1, [None, None, None, B("a")]), (1, 1, [None, B("b")]), (0, 2, [N("hit")]), (1, 2, [None, None, N("hit"), None]), (2, 3, [N("head"), None]), (3, 3, [N("tail")])]
+    S["coinciding-tempo-events"] = [(1, 1, [None, B("a")]), (1, 1, [None, None, B("b"), None]), (0, 2, [N("hit")]), (2, 2, [N("hit"), None]), (3, 4, [None, N("hit")])]
+    S["large-sample-ids"] = [(0, 2, [N("hit", value=0x8001), None, N("hit", value=0xFFFF), None]), (1, 3, [N("head", value=0x9000), None]), (2, 3, [None, N("tail", value=0x8000)]),
+                             (1, 1, [B("a")])]
     S["empty"] = []
     return S
 
